@@ -16,8 +16,11 @@ LEVEL = ('decides: every unsigned difference in the MaxSAT bound encoder and lin
          'infeasible (W5). an aggregate over a whole collection is not re-added to a field on every '
          'round of a loop (W4b); the root-satisfaction test of a soft clause sees the whole mapped '
          'clause (W6); encoder loops that post clauses are left only by exhaustion, error or panic — '
-         'data-dependent early exits need a table entry (W7). Does not decide the correctness of the '
-         'two encodings')
+         'data-dependent early exits need a table entry (W7). Also runs the KERNEL BUNDLE (rule ids '
+         '…K<n>): the kernel rules every verdict depends on — predicate algebra, nogood watchers, '
+         'minimisers, conflict-analysis tables, nogood deletion, decision read-back, no-learning '
+         'resolver, constraint builders, reified reasons — wherever they are not already registered '
+         'here under another id. Does not decide the correctness of the two encodings')
 TECHNIQUE = "static analysis: guarded-subtraction, dominance, symbolic table recovery and loop-nesting rules over rustc MIR"
 
 # unsigned differences with an arithmetic (not comparison-shaped) safety argument
@@ -672,3 +675,5 @@ def run(ctx, led):
     run_rule(led, "W7", "encoder loops that post a clause per element do not stop after posting one", w7, ctx)
     run_rule(led, "W3b", "the objective Function accumulates weights per literal and constants", w3b, ctx)
     run_rule(led, "W8", "PB preprocessing only fixes literals whose weight alone exceeds the remaining budget", w8, ctx)
+    from . import kernel as _kernel
+    _kernel.run_bundle(led, ctx, "W")
